@@ -557,6 +557,7 @@ def corr_buildsystem(ctx, res):
     if ctx.model_ok and not model_ok:
         res.mismatches.append({"stream": "c11bs", "input": "model driver exit %s" % mrc, "model": merr[-300:]})
     nfail = nok = nskip = 0
+    di_resolved = depinfo_input_resolved() if STRICT_DEPINFO_RELATIVE is None else STRICT_DEPINFO_RELATIVE
     for i, (style, wd, data, kind, exp) in enumerate(cases):
         line = hout[i]
         # a discovered path with a trailing separator is a directory-tree node (C12's subject; "/" even makes the engine report a
@@ -586,9 +587,12 @@ def corr_buildsystem(ctx, res):
                                         "kind": "failed-without-diagnostic", "input": {"line": lines[i]}})
         if kind == "valid":
             if style == "dependency-info":
-                want = [(k, s) for k, s in exp if k != "V"]
+                # input records: resolved like Makefile-style prerequisites once the code does that (fingerprint extracted; finding F41)
+                want = [(k, resolve_spec(wd, s) if k == "I" and di_resolved else s) for k, s in exp if k != "V"]
             else:
                 want = [("I", resolve_spec(wd, d)) for d in exp]
+            if style == "dependency-info" and di_resolved and any(k == "I" and s.startswith(b"//") for k, s in exp):
+                continue        # llvm reads a leading `//name` as a root NAME (relative): modelled and corresponded, outside the python spec
             if f["status"] != "ok" or deps != want:
                 res.oracle_failures.append({"what": "well-formed dependency file: status %s, discovered %s, expected %s" % (f["status"], deps[:5], want[:5]),
                                             "kind": "bs-roundtrip", "input": {"line": lines[i]}})
@@ -599,6 +603,392 @@ def corr_buildsystem(ctx, res):
     res.distribution["buildsystem_successful_commands"] = nok
     res.distribution["buildsystem_skipped_directory_nodes"] = nskip
     res.samples.append({"c11bs": lines[0], "impl": hout[0]})
+
+
+# ------------------------------------------------------------------------------------------------
+# END TO END: histories through the real shell-command path (deps: LIST, every style, with / without working-directory)
+# ------------------------------------------------------------------------------------------------
+E2E_STYLES = ["makefile", "makefile-ignoring-subsequent-outputs", "dependency-info"]
+# After fix F41 (dependency-info inputs resolved against the working directory) is in the tree and registered, set this to True so
+# that a revert is reported; None = follow the extracted fingerprint `Generated.shDepInfoInputResolved` (cases with a relative
+# dependency-info path under a working directory different from the process's are then only PROBED and counted as evidence).
+STRICT_DEPINFO_RELATIVE = True
+
+
+def depinfo_input_resolved():
+    try:
+        txt = open(os.path.join(C.LEAN, "LLBuild", "Generated", "DepsTables.lean")).read()
+    except OSError:
+        return False
+    return "def shDepInfoInputResolved : Bool := true" in txt
+
+
+def e2e_path(rng, alpha, k, j):
+    """a file path in one of the spellings a dependency file can contain: relative (plain, `./`, `../`, nested) or absolute;
+    the random part is over the full alphabet; empty / `.` / `..` components are only used deliberately (leading `./`, `../`)."""
+    raw = rng.bytes_from(alpha + [0x2f], 8, 1)
+    comps = [c if c not in (b".", b"..") else b"a" for c in raw.split(b"/") if c]
+    p = b"/".join(comps) or b"x"
+    if (k + j) % 4 == 0:
+        p += bytes([SPECIAL[(k + j) // 4 % 5]])                        # a special character last (':' included)
+    if p.startswith(b":"):
+        p = b"r" + p
+    shape = (k // 2 + j) % 6
+    return shape, p
+
+
+def e2e_file(rng, style, k, fi, absdir, force_abs):
+    """a well-formed dependency file in `style`; returns (bytes, listed paths as written, honoured paths as written)"""
+    def place(shape, p):
+        if shape in (1, 5) or force_abs:
+            return absdir + b"/" + p
+        if shape == 2:
+            return b"./" + p
+        if shape == 3:
+            return b"../" + p
+        return p
+    if style == "dependency-info":
+        alpha = [c for c in range(1, 256) if c != 0x2f] if (k + fi) % 3 == 0 else [c for c in PATH_ALPHA if c != 0x2f] + [0x0a, 0x09, 0x10, 0x40]
+        recs = [("V", rng.bytes_from([0x61, 0x2e, 0x31, 0x20], 6, 1))]
+        listed = []
+        for j in range(1 + rng.below(4)):
+            shape, p = e2e_path(rng, alpha, k, j + 3 * fi)
+            op = "IIMO"[(k + j + fi) % 4] if j else "I"
+            w = place(shape, p)
+            recs.append((op, w))
+            if op == "I":
+                listed.append(w)
+        return di_encode(recs), listed
+    ign = style != "makefile"
+    rules, listed = [], []
+    for r in range(1 + (k + fi) % 2 + (1 if (k + fi) % 5 == 0 else 0)):
+        target = rng.bytes_from([c for c in PATH_ALPHA if c != 0x3a], 6, 1)
+        deps = []
+        for j in range((1 + rng.below(4)) if r == 0 else rng.below(3)):
+            shape, p = e2e_path(rng, [c for c in PATH_ALPHA if c != 0x2f], k, j + 3 * fi + 5 * r)
+            w = place(shape, p)
+            deps.append(((k + j + r) % 3, w))
+            if r == 0 or not ign:
+                listed.append(w)
+        rules.append((target, deps, (k + r + fi) % 4 == 3))
+    return mk_file(rules), listed
+
+
+def e2e_malformed(rng, style, good, k):
+    """a dependency file that is malformed BY CONSTRUCTION (documented shape violated), derived from the well-formed `good`"""
+    if style == "dependency-info":
+        m = k % 4
+        if m == 0:
+            return good[good.index(b"\0", 1) + 1:] or b"\x10a\0", "no-version-record"
+        if m == 1:
+            return good[:-1], "missing-final-nul"
+        if m == 2:
+            cut = good.index(b"\0", 1) + 1
+            return good[:cut] + b"\x41zz\0" + good[cut:], "unknown-opcode"
+        cut = good.index(b"\0", 1) + 1
+        return good[:cut] + b"\x10\0" + good[cut:], "empty-operand"
+    first, nl, rest = good.partition(b"\n")
+    m = k % 3
+    if m == 0:       # an unexpanded make variable among the prerequisites of the first rule
+        head, colon, tail = first.partition(b":")
+        words = tail.split(b" ")
+        words.insert(1 + rng.below(len(words)), b"$(GENERATED)")
+        return head + colon + b" ".join(words) + nl + rest, "variable-reference"
+    if m == 1:       # the rule has no ':'
+        return first.replace(b":", b"", 1).replace(b":", b"") + nl + rest, "missing-colon"
+    return b": " + first + nl + rest, "no-target"
+
+
+def _norm(p):
+    return os.path.normpath(p)
+
+
+def e2e_case(rng, k, scratch, seed, strict_rel):
+    style = E2E_STYLES[k % 3]
+    wdmode = ["none", "abs", "rel"][(k // 3) % 3]
+    nfiles = 1 + (k // 9) % 3
+    kind = ["valid", "malformed", "valid", "missing", "malformed", "mutated"][(k // 27 + k) % 6]
+    root = ("%s/e2e-%d-%d" % (scratch, seed, k)).encode()
+    cwd = root + b"/r"
+    wdval = {"none": None, "abs": cwd + b"/w d", "rel": b"w d"}[wdmode]
+    W = cwd if wdmode == "none" else cwd + b"/w d"
+    absdir = cwd + b"/A"
+    probe = False
+    force_abs = False
+    if style == "dependency-info" and wdmode != "none" and not strict_rel:
+        # the dependency-info branch of the unrepaired code does not resolve relative paths (F41): a few probes, otherwise absolute
+        probe = kind == "valid" and k % 4 == 0
+        force_abs = not probe
+    names, locs, contents, listed = [], [], [], []
+    for fi in range(nfiles):
+        nm = [b"d%d.d" % fi, b"sub/d %d.d" % fi, cwd + b"/abs d%d.d" % fi][(k + fi) % 3]
+        names.append(nm)
+        locs.append(nm if nm.startswith(b"/") else W + b"/" + nm)
+        data, ls = e2e_file(rng, style, k, fi, absdir, force_abs)
+        contents.append(data)
+        listed.append(ls)
+    bad = (k // 5) % nfiles
+    good_at_bad = contents[bad]
+    sub = ""
+    if kind == "malformed":
+        contents[bad], sub = e2e_malformed(rng, style, contents[bad], k // 3)
+    elif kind == "mutated":
+        contents[bad] = mutate(rng, contents[bad])
+    elif kind == "missing":
+        contents[bad] = None
+
+    def resolve(p):
+        return p if p.startswith(b"/") else W + b"/" + p
+
+    needed = set()
+    for q in [_norm(resolve(p)) for ls in listed for p in ls] + locs + [W + b"/x", cwd + b"/x"]:
+        while len(q) > 1:
+            q = os.path.dirname(q)
+            needed.add(q)
+
+    def touchable(p):
+        q = _norm(resolve(p))
+        return q.startswith(root + b"/") and not q.startswith(root + b"/db") and q not in needed
+
+    exists = {}
+    steps = []
+    for fi in range(nfiles):
+        if contents[fi] is not None:
+            steps.append("W%s:%s" % (C.hexs(locs[fi]), C.hexs(contents[fi])))
+    for ls in listed:
+        for p in ls:
+            q = _norm(resolve(p))
+            if touchable(p) and q not in exists:
+                exists[q] = rng.below(2) == 0
+                if exists[q]:
+                    steps.append("A" + C.hexs(resolve(p)))
+    expect = []     # per build: dict(status=..., ran=..., why=...) ; None entries = not constrained
+    current = list(contents)
+    snaps = []      # deps-file contents at each build (for the model)
+    ntouch = {"edit": 0, "create": 0, "delete": 0}
+
+    def build(status=None, ran=None, why="", deps=None):
+        steps.append("B")
+        expect.append({"status": status, "ran": ran, "why": why, "deps": deps})
+        snaps.append(list(current))
+
+    def touch(p):
+        q = _norm(resolve(p))
+        if exists[q]:
+            if rng.below(2):
+                steps.append("A" + C.hexs(resolve(p))); ntouch["edit"] += 1; return "edit"
+            steps.append("R" + C.hexs(resolve(p))); exists[q] = False; ntouch["delete"] += 1; return "delete"
+        steps.append("A" + C.hexs(resolve(p))); exists[q] = True; ntouch["create"] += 1; return "create"
+
+    def honoured(files, maxn):
+        """touch up to maxn listed paths — one of EVERY file first (last file first: its position must not matter), then others"""
+        cand = []
+        for fi in files:
+            t = [p for p in listed[fi] if touchable(p)]
+            if t:
+                cand.append((fi, rng.choice(t)))
+        extra = [(fi, p) for fi in files for p in listed[fi] if touchable(p)]
+        while len(cand) < maxn and extra:
+            cand.append(extra.pop(rng.below(len(extra))))
+        for fi, p in cand[:maxn]:
+            how = touch(p)
+            build("ok", 1, "%s of %r (written %r in dependency file %d of %d)" % (how, resolve(p), p, fi + 1, nfiles))
+            build("ok", 0, "null build")
+
+    want_deps = None
+    if kind == "valid":
+        if not probe:
+            want_deps = [resolve(p) if (style != "dependency-info" or strict_rel) else p for ls in listed for p in ls]
+        build("ok", 1, "first build", want_deps)
+        build("ok", 0, "null build")
+        honoured(list(reversed(range(nfiles))), 3 if nfiles < 3 else 4)
+        trig = next((p for ls in listed for p in ls if touchable(p)), None)
+        if k % 4 == 1 and not probe and trig is not None:
+            # the command reports one more path on its next run (it rewrites its dependency file): honoured from then on
+            fi = (k // 4) % nfiles
+            newp = (absdir + b"/" if force_abs or k % 8 == 1 else b"") + b"new file %d.h" % k
+            if style == "dependency-info":
+                data = di_encode([("V", b"2")] + [("I", p) for p in listed[fi]] + [("I", newp)])
+            else:
+                data = mk_file([(b"out", [((j + k) % 3, p) for j, p in enumerate(listed[fi] + [newp])], k % 8 == 5)])
+            steps.append("W%s:%s" % (C.hexs(locs[fi]), C.hexs(data)))
+            current[fi] = data
+            listed[fi] = listed[fi] + [newp]
+            how = touch(trig)
+            build("ok", 1, "%s of %r (this run reads a rewritten dependency file %d of %d)" % (how, resolve(trig), fi + 1, nfiles))
+            build("ok", 0, "null build")
+            exists[_norm(resolve(newp))] = False
+            how = touch(newp)
+            build("ok", 1, "%s of %r (listed only since the previous run, dependency file %d of %d)" % (how, resolve(newp), fi + 1, nfiles))
+            build("ok", 0, "null build")
+    elif kind in ("malformed", "missing"):
+        why = "dependency file %d of %d is %s" % (bad + 1, nfiles, "malformed (%s)" % sub if kind == "malformed" else "missing")
+        build("failed", 1, why)
+        build("failed", 1, why + ": the command must not have been recorded as up to date")
+        steps.append("W%s:%s" % (C.hexs(locs[bad]), C.hexs(good_at_bad)))
+        current[bad] = good_at_bad
+        build("ok", 1, "dependency file repaired")
+        build("ok", 0, "null build")
+        honoured([bad] + [fi for fi in reversed(range(nfiles)) if fi != bad], 2)
+    else:
+        build(None, 1, "first build")
+        build(None, None, "second build")
+    name_field = ("s:" if nfiles == 1 and k % 2 else "l:") + ",".join(C.hexs(n) for n in names)
+    line = " ".join([C.hexs(root), style, "none" if wdval is None else C.hexs(wdval), name_field, ",".join(steps)])
+    return dict(line=line, style=style, wdmode=wdmode, W=W, nfiles=nfiles, kind=kind, sub=sub, bad=bad, expect=expect, snaps=snaps,
+                probe=probe, ntouch=ntouch, k=k)
+
+
+def parse_e2e(line):
+    """harness line -> list of per-build dicts, or None"""
+    if not line.startswith("status="):
+        return None
+    out = []
+    for b in line.split(" | "):
+        f = {}
+        for x in b.split(" "):
+            if "=" not in x:
+                return None              # a file-system step failed
+            a, _, v = x.partition("=")
+            f[a] = v
+        if not all(x in f for x in ("status", "ran", "errors", "open", "deps")):
+            return None
+        f["deplist"] = [] if f["deps"] == "." else [(x.split(":")[0], C.unhex(x.split(":")[1])) for x in f["deps"].split(";")]
+        out.append(f)
+    return out
+
+
+def e2e_judge(case_line, expect, builds, meta):
+    """the PROPERTY, evaluated on what the real builds did.  Returns a list of failure dicts (without `input`)."""
+    fails = []
+    if builds is None or len(builds) != len(expect):
+        return [{"what": "the history did not run to its end (%s builds reported, %d expected)" % (None if builds is None else len(builds), len(expect)),
+                 "kind": "e2e-abnormal"}]
+    prev = None
+    for i, (e, b) in enumerate(zip(expect, builds)):
+        ctx = "build %d of %d (%s)" % (i + 1, len(expect), e["why"])
+        ran = int(b["ran"])
+        diag = int(b["errors"]) + int(b["open"])
+        if b["status"] not in ("ok", "failed"):
+            fails.append({"what": "%s: the build did not produce a command result (%s)" % (ctx, b["status"]), "kind": "e2e-abnormal"})
+            break
+        # (i) a malformed dependency file, at ANY position of the list, fails the command ...
+        if e["status"] == "failed" and b["status"] != "failed":
+            fails.append({"what": "%s, but the command completed successfully (%d diagnostics): its dependencies were silently dropped" % (ctx, diag),
+                          "kind": "e2e-missing-not-failed" if meta.get("fault") == "missing" else "e2e-malformed-not-failed",
+                          "position": meta["pos"], "nfiles": meta["nfiles"]})
+        if ran and diag > 0 and b["status"] != "failed":
+            fails.append({"what": "%s: %d dependency-file diagnostics were reported but the command did not fail" % (ctx, diag),
+                          "kind": "e2e-diagnosed-not-failed", "position": meta["pos"], "nfiles": meta["nfiles"]})
+        # ... and is not recorded as up to date
+        if prev is not None and prev["status"] == "failed" and ran == 0:
+            fails.append({"what": "%s: the previous build's command failed, yet it was not run again" % ctx, "kind": "e2e-failed-command-up-to-date"})
+        if e["status"] == "ok" and b["status"] != "ok":
+            fails.append({"what": "%s: every dependency file is well-formed but the command failed (%d diagnostics)" % (ctx, diag),
+                          "kind": "e2e-wellformed-failed"})
+        # (ii) a change to ANY listed path re-executes the command; a null build does not
+        if e["ran"] == 1 and ran == 0:
+            fails.append({"what": "%s: the command was NOT re-executed" % ctx,
+                          "kind": "e2e-not-rerun" if i else "e2e-first-build-not-run", "style": meta["style"], "wd": meta["wdmode"]})
+        if e["ran"] == 0 and ran != 0 and (prev is None or prev["status"] == "ok"):
+            fails.append({"what": "%s: nothing changed since the previous successful build, but the command ran again" % ctx, "kind": "e2e-null-build-ran"})
+        if e["ran"] is None and prev is not None and prev["status"] == "ok" and ran != 0:
+            fails.append({"what": "%s: nothing changed since the previous successful build, but the command ran again" % ctx, "kind": "e2e-null-build-ran"})
+        # (iii) relative paths are resolved against the command's working directory (what the engine was given)
+        if e.get("deps") is not None and ran and b["status"] == "ok":
+            got = [p for kd, p in b["deplist"] if kd == "I"]
+            if got != e["deps"]:
+                bad = next((x for x in zip(got, e["deps"]) if x[0] != x[1]), (got[len(e["deps"]):], e["deps"][len(got):]))
+                fails.append({"what": "%s: discovered dependencies differ from what the files list (first difference: got %r, expected %r)" % (ctx, bad[0], bad[1]),
+                              "kind": "e2e-discovered", "style": meta["style"], "wd": meta["wdmode"]})
+        prev = b
+        if fails:
+            break
+    return fails
+
+
+def corr_e2e(ctx, res):
+    """Histories through the REAL BuildSystem shell-command path (ShellCommand::processDiscoveredDependencies with a deps: list,
+    ExternalCommand, BuildEngine, BuildDB): see `E2E rule` in Check.correspond."""
+    rng = ctx.rng
+    exe = ctx.exe[(HARNESS, "plain")]
+    scratch = os.path.join(C.BUILD, "scratch")
+    os.makedirs(scratch, exist_ok=True)
+    strict = depinfo_input_resolved() if STRICT_DEPINFO_RELATIVE is None else STRICT_DEPINFO_RELATIVE
+    n = 1080 if ctx.thorough else 216
+    cases = [e2e_case(rng, k, scratch, ctx.seed, strict) for k in range(n)]
+    lines = [c["line"] for c in cases]
+    hout, restarts = run_attributed([exe, "c11e2e", scratch], lines, watchdog=300)
+    # the model: every build in which the command runs is one evaluation of processDiscoveredDependencies on the files as they are then
+    mlines, mwhere = [], []
+    for ci, c in enumerate(cases):
+        for bi, snap in enumerate(c["snaps"]):
+            mlines.append("%s %s %s" % (c["style"], C.hexs(c["W"]), ",".join("x" if d is None else C.hexs(d) for d in snap)))
+            mwhere.append((ci, bi))
+    mrc, mout, merr = run_model("c11bsl", mlines)
+    model_ok = mrc == 0 and len(mout) == len(mlines)
+    if ctx.model_ok and not model_ok:
+        res.mismatches.append({"stream": "c11bsl", "input": "model driver exit %s, %d/%d lines" % (mrc, len(mout), len(mlines)), "model": merr[-300:]})
+    mpred = {}
+    if model_ok:
+        for (ci, bi), o in zip(mwhere, mout):
+            mpred[(ci, bi)] = o
+    dist = {"kind": {}, "style": {}, "working_directory": {}, "deps_files": {}, "touches": {"edit": 0, "create": 0, "delete": 0}}
+    nbuilds = nrerun = nnull = nfailed = nskip = nprobe = nprobe_unresolved = ncmp = 0
+    for ci, c in enumerate(cases):
+        for a, b in (("kind", c["kind"] + ("/" + c["sub"] if c["sub"] else "")), ("style", c["style"]), ("working_directory", c["wdmode"]), ("deps_files", str(c["nfiles"]))):
+            dist[a][b] = dist[a].get(b, 0) + 1
+        for t, v in c["ntouch"].items():
+            dist["touches"][t] += v
+        line = hout[ci]
+        inp = {"line": c["line"], "scratch": scratch, "stream": "c11e2e",
+               "expect": [[e["status"], e["ran"], e["why"], None if e["deps"] is None else [C.hexs(x) for x in e["deps"]]] for e in c["expect"]],
+               "style": c["style"], "wdmode": c["wdmode"], "nfiles": c["nfiles"], "pos": c["bad"] + 1, "fault": c["kind"]}
+        if line.startswith(("ABORT", "HANG")):
+            res.oracle_failures.append({"what": "a history through the shell-command path did not complete normally: " + line[:300], "kind": "e2e-abnormal", "input": inp})
+            continue
+        builds = parse_e2e(line)
+        # a discovered path with a trailing separator is a directory-tree node (C12's subject; "/" even makes the engine report a cycle)
+        if c["kind"] == "mutated" and (builds is None or any(p.endswith(b"/") for b in builds for _, p in b["deplist"]) or
+                                       any(b["status"] not in ("ok", "failed") for b in builds)):
+            nskip += 1
+            continue
+        meta = {"pos": c["bad"] + 1, "nfiles": c["nfiles"], "style": c["style"], "wdmode": c["wdmode"], "fault": c["kind"]}
+        fails = e2e_judge(c["line"], c["expect"], builds, meta)
+        if c["probe"]:
+            nprobe += 1
+            if fails:
+                nprobe_unresolved += 1
+            continue
+        for f in fails:
+            f["input"] = inp
+            res.oracle_failures.append(f)
+        if builds is None:
+            continue
+        nbuilds += len(builds)
+        for bi, (e, b) in enumerate(zip(c["expect"], builds)):
+            if b["status"] == "failed":
+                nfailed += 1
+            if e["ran"] == 1 and bi and e["status"] == "ok" and int(b["ran"]):
+                nrerun += 1
+            if e["ran"] == 0 and int(b["ran"]) == 0:
+                nnull += 1
+            if int(b["ran"]) and (ci, bi) in mpred:
+                ncmp += 1
+                keys = [p for kd, p in b["deplist"] if kd == "I"]
+                impl = "status=%s errors=%s open=%s deps=%s keys=%s" % (b["status"], b["errors"], b["open"], b["deps"],
+                                                                      ",".join(C.hexs(x) for x in keys) if keys else ".")
+                if impl != mpred[(ci, bi)] and len(res.mismatches) < 20:
+                    res.mismatches.append({"stream": "c11bsl", "input": mlines[mwhere.index((ci, bi))] + "   [build %d of: %s]" % (bi + 1, c["line"]),
+                                           "model": mpred[(ci, bi)], "impl": impl})
+    res.evaluations += nbuilds
+    res.distinct_nontrivial += nrerun + nfailed
+    dist.update({"histories": len(cases), "builds": nbuilds, "reruns_after_a_change_verified": nrerun, "null_builds_verified": nnull,
+                 "failed_builds": nfailed, "builds_compared_with_model": ncmp, "skipped_directory_nodes": nskip,
+                 "depinfo_relative_strict": bool(strict), "depinfo_relative_probes": nprobe, "depinfo_relative_probes_not_honoured": nprobe_unresolved,
+                 "harness_restarts": restarts})
+    res.distribution["e2e"] = dist
+    res.samples.append({"c11e2e": lines[0][:400], "impl": hout[0][:400]})
 
 
 C19_DEPS_THEOREMS = [
@@ -617,6 +1007,7 @@ class Check(PropertyCheck):
         "LLBuild.MakeDeps.C11_inexpressible_newline", "LLBuild.MakeDeps.C11_inexpressible_control",
         "LLBuild.MakeDeps.C11_comment_skipped", "LLBuild.MakeDeps.C11_relative_resolved", "LLBuild.MakeDeps.C11_absolute_unchanged",
         "LLBuild.DepInfo.C11_depinfo_roundtrip", "LLBuild.ShellDeps.C11_malformed_fails", "LLBuild.ShellDeps.C11_wellformed_succeeds",
+        "LLBuild.ShellDeps.C11_success_registers_every_file", "LLBuild.ShellDeps.C11_succeeded_only_if_processed",
     ] + C19_DEPS_THEOREMS
     extractors = ["x_depsparsers"]
     impl_cfgs = ["plain", "asan"]
@@ -627,10 +1018,13 @@ class Check(PropertyCheck):
         "the working directory of the command is set and absolute (configureAttribute makes it so); with no working-directory attribute "
         "make_absolute resolves against the process's current directory, which is not modelled",
         "llvm::sys::path::append / is_absolute (POSIX style) are modelled for one component and corresponded, not proved",
-        "the end-to-end clause (touching a discovered path re-executes the command) is an instance of the engine theorem and is decided elsewhere",
+        "the end-to-end clause (touching a discovered path re-executes the command) is, as a theorem, an instance of the engine theorem decided elsewhere; "
+        "here it is checked on the real code by the c11e2e histories (oracle only)",
+        "dependency-info input records: the model follows the extracted fingerprint shDepInfoInputResolved (unrepaired code: the operand is the key as "
+        "it is, i.e. a relative path is relative to the process's directory, finding F41; such cases are probed and counted, not judged, until the fix is in)",
     ]
     trusted_base = ["extractor x_depsparsers (character classes, escape set, comment loop operator, bounds guards, opcode enum)",
-                    "correspondence harness vc11 (makedeps, depinfo, resolve, c11bs) and its generators",
+                    "correspondence harness vc11 (makedeps, depinfo, resolve, c11bs, c11e2e) and its generators",
                     "python oracles (escape/mk_file/resolve_spec restated independently; sanitizer reports; watchdog)"]
 
     def replay(self, ctx, res):
@@ -640,6 +1034,8 @@ class Check(PropertyCheck):
         rec = json.load(open(ctx.replay_path))
         f = rec.get("failure", {})
         inp = f.get("input", {})
+        if inp.get("stream") == "c11e2e":
+            return self.replay_e2e(ctx, res, f)
         if "line" in inp:
             mode, hmode, cfg, line, extra = "c11bs", "c11bs", "plain", inp["line"], [os.path.join(C.BUILD, "scratch")]
         elif "wd" in inp:
@@ -662,6 +1058,29 @@ class Check(PropertyCheck):
             res.oracle_failures.append(g)
         res.rule = "replay of one recorded input"
 
+    def replay_e2e(self, ctx, res, f):
+        """one recorded history through the real shell-command path, judged again by the property oracle"""
+        inp = f["input"]
+        scratch = os.path.join(C.BUILD, "scratch")
+        os.makedirs(scratch, exist_ok=True)
+        line = inp["line"]
+        if inp.get("scratch") and inp["scratch"] != scratch:        # recorded under another build directory: re-base the paths
+            line = line.replace(C.hexs(inp["scratch"].encode()), C.hexs(scratch.encode()))
+        hout, _ = run_attributed([ctx.exe[(HARNESS, "plain")], "c11e2e", scratch], [line], watchdog=300)
+        expect = [{"status": e[0], "ran": e[1], "why": e[2],
+                   "deps": None if e[3] is None else [C.unhex(x.replace(C.hexs(inp["scratch"].encode()), C.hexs(scratch.encode()))) for x in e[3]]}
+                  for e in inp["expect"]]
+        builds = None if hout[0].startswith(("ABORT", "HANG")) else parse_e2e(hout[0])
+        C.log("replay history: %s\n  expected (status, ran, why): %s\n  builds: %s" % (
+            line[:300], [(e["status"], e["ran"], e["why"]) for e in expect], hout[0][:2000]))
+        res.evaluations += 1
+        meta = {"pos": inp.get("pos"), "nfiles": inp.get("nfiles"), "style": inp.get("style"), "wdmode": inp.get("wdmode"), "fault": inp.get("fault")}
+        for g in e2e_judge(line, expect, builds, meta):
+            g["input"] = inp
+            g["replayed"] = {"impl": hout[0][:600]}
+            res.oracle_failures.append(g)
+        res.rule = "replay of one recorded history"
+
     def correspond(self, ctx, res):
         if getattr(ctx, "replay_path", None):
             return self.replay(ctx, res)
@@ -669,12 +1088,24 @@ class Check(PropertyCheck):
         corr_depinfo(ctx, res)
         corr_resolve(ctx, res)
         corr_buildsystem(ctx, res)
+        corr_e2e(ctx, res)
         res.rule = ("Makefile deps: files written by mk_file over an alphabet with every special character (plain / decorated with comments and "
                     "blank space / without final newline / ignoreSubsequentOutputs), every proper prefix of each of the first valid files, seeded "
                     "mutations, and every string over 8 structural bytes up to a length bound; dependency-info likewise (plus files with extra "
                     "trailing NULs, every string over 6 bytes up to a bound); resolve: 6 working directories x every path over 4 bytes up to a bound "
                     "+ seeded; build-system: one real build per case.  Non-trivial = valid files whose round trip is checked by the python oracle, "
-                    "relative paths, failed commands.")
+                    "relative paths, failed commands.  "
+                    "END TO END (c11e2e): one HISTORY per case through the real shell-command path (manifest -> ShellCommand with a `deps:` list of "
+                    "1-3 files in scalar or list form, relative or absolute file names -> processDiscoveredDependencies -> engine -> build database; "
+                    "every build in a fresh BuildSystem over the same database): full factorial of 3 styles x working-directory absent / absolute / "
+                    "relative x 1-3 files, crossed with well-formed / malformed by construction (variable reference, no colon, no target; no version "
+                    "record, no final NUL, unknown opcode, empty operand) / missing / mutated file at every position of the list; listed paths over the "
+                    "full alphabet in relative (plain, ./, ../, nested) and absolute spellings, half of them existing.  Oracle = the property: a "
+                    "malformed file at any position fails the command and the command runs again on the next build; after a successful build an edit, "
+                    "creation or deletion of a listed path (one of EVERY file of the list, resolved against the command's working directory by the "
+                    "oracle) re-executes the command, also for paths listed only since the previous run, and a build with no change does not; "
+                    "the discovered keys are the listed paths.  Each build in which the command ran is also compared with the Lean model "
+                    "(c11bsl: ShellDeps.completion / discoveredKeys on the files as they were).  Non-trivial = verified re-executions + failed builds.")
 
     def search(self, ctx, res, why):
         return
